@@ -297,6 +297,21 @@ func firstLibFrame(stack string) string {
 	return "?"
 }
 
+// lastLibFrame extracts the outermost ch-go function of a stack dump.
+func lastLibFrame(stack string) string {
+	out := "?"
+	for _, line := range strings.Split(stack, "\n") {
+		line = strings.TrimSpace(line)
+		if strings.HasPrefix(line, "github.com/ClickHouse/ch-go") && !strings.Contains(line, "/simrt.") {
+			if i := strings.IndexByte(line, '('); i > 0 {
+				line = line[:i]
+			}
+			out = strings.TrimPrefix(line, "github.com/ClickHouse/ch-go")
+		}
+	}
+	return out
+}
+
 // LibGoroutines returns the stacks of goroutines (other than the caller) that
 // have a ch-go library frame, for leak oracles.
 func LibGoroutines(all string) []string {
